@@ -17,7 +17,7 @@ python3 - <<'PY' > /tmp/regress.list
 import json
 e=json.load(open('/verif/tools/seed_expect.json'))
 for k,v in sorted(e.items()):
-    print(k, ','.join(v['checks']) if v['checks'] else '-')
+    print(k, 'obsolete' if v.get('obsolete') else (','.join(v['checks']) if v['checks'] else '-'))
 PY
 xargs -P ${REGRESS_JOBS:-6} -L 1 tools/regress_one.sh < /tmp/regress.list | sort > /tmp/regress.out
 cat /tmp/regress.out
